@@ -1,15 +1,16 @@
-\* C38 offset-write and raw content, <= 2 structures, no pruning
+\* C38 offset-write (absolute / relative to the first structure) x geometry, <= 2 structures, no pruning
+\* (acceptance is not prefix-closed with offset-write: the volume's minimal size grows)
 CONSTANTS
   MinStart = 2
   MbrMax = 1
   PtrSize = 1
   MaxStructs = 2
   OffVals <- OffSmall
-  SizeVals = {1, 2, 3}
+  SizeVals = {1, 2}
   MinVals = {0, 1}
-  RoleVals = {"none", "mbr", "system-data"}
+  RoleVals = {"none", "mbr"}
   OwVals <- OwSmall
-  ContentVals <- ContentSmall
+  ContentVals <- ContentNone
   PartialVals = {FALSE}
   Prune = FALSE
 INIT Init
